@@ -1171,9 +1171,7 @@ def _oauth_signature(
 
     See http://oauth.net/core/1.0/#signing_process
     """
-    parts = urllib.parse.urlparse(url)
-    scheme, netloc, path = parts[:3]
-    normalized_url = scheme.lower() + "://" + netloc.lower() + path
+    normalized_url = _oauth_normalize_url(url)
 
     base_elems = []
     base_elems.append(method.upper())
@@ -1200,9 +1198,7 @@ def _oauth10a_signature(
 
     See http://oauth.net/core/1.0a/#signing_process
     """
-    parts = urllib.parse.urlparse(url)
-    scheme, netloc, path = parts[:3]
-    normalized_url = scheme.lower() + "://" + netloc.lower() + path
+    normalized_url = _oauth_normalize_url(url)
 
     base_elems = []
     base_elems.append(method.upper())
@@ -1218,6 +1214,18 @@ def _oauth10a_signature(
 
     hash = hmac.new(key, escape.utf8(base_string), hashlib.sha1)
     return binascii.b2a_base64(hash.digest())[:-1]
+
+
+def _oauth_normalize_url(url: str) -> str:
+    # RFC 5849 section 3.4.1.2: lowercase scheme and host, no default port.
+    parts = urllib.parse.urlparse(url)
+    scheme, netloc, path = parts[:3]
+    scheme = scheme.lower()
+    netloc = netloc.lower()
+    default_port = {"http": ":80", "https": ":443"}.get(scheme)
+    if default_port and netloc.endswith(default_port):
+        netloc = netloc[: -len(default_port)]
+    return scheme + "://" + netloc + path
 
 
 def _oauth_normalize_parameters(parameters: dict[str, Any]) -> str:
